@@ -528,6 +528,16 @@ theorem predict_in_hull_nll (lg sg : F → F) (b : F) (hb : b ≤ 1 - b) (hsg : 
 
 example : predictL2 [3 / 4, 0, 1 / 4] [(2 : Rat), 100, 6] = 3 := by decide +kernel
 
+/-- non-vacuity of the hull theorems: their hypotheses are met by concrete convex weights (an excluded candidate
+    with a wild prediction does not matter), and by `lg = sg = id` for the logit-scale version -/
+example : (2 : Rat) ≤ predictL2 [3 / 4, 0, 1 / 4] [2, 100, 6] ∧ predictL2 [3 / 4, 0, 1 / 4] [(2 : Rat), 100, 6] ≤ 6 :=
+  predict_in_hull [3 / 4, 0, 1 / 4] [2, 100, 6] rfl (by decide +kernel) (by decide +kernel) 2 6 (by decide +kernel)
+example : (1 / 5 : Rat) ≤ predictNll id id (1 / 10) [1 / 2, 0, 1 / 2] [1 / 5, 99, 3 / 5] ∧
+    predictNll id id (1 / 10 : Rat) [1 / 2, 0, 1 / 2] [1 / 5, 99, 3 / 5] ≤ 3 / 5 :=
+  predict_in_hull_nll id id (1 / 10) (by norm_num) monotone_id (fun _ _ _ h _ => h) (fun _ _ _ => rfl)
+    [1 / 2, 0, 1 / 2] [1 / 5, 99, 3 / 5] rfl (by decide +kernel) (by decide +kernel) (1 / 5) (3 / 5)
+    (by norm_num) (by decide +kernel) (by simp)
+
 end coef
 
 /-! ## StepwiseSL -/
